@@ -277,7 +277,7 @@ class atom(boolean.AndRestriction):
 
         if self.slot is not None and not eapi_obj.options.has_slot_deps:
             raise errors.MalformedAtom(
-                orig_atom, f"{x} SLOT dep atoms aren't supported in EAPI {eapi}"
+                orig_atom, f"SLOT dep atoms aren't supported in EAPI {eapi}"
             )
 
         elif self.use is not None and not eapi_obj.options.has_use_deps:
